@@ -6,6 +6,8 @@
 
 mod endpoint;
 mod gen;
+mod genhs;
+mod hs;
 mod pure;
 mod transport;
 mod util;
@@ -24,7 +26,8 @@ fn split_cases(text: &str) -> Vec<Vec<String>> {
         // keep only input lines, so that a transcript can be fed back as a replay
         let tag = t.split_whitespace().next().unwrap_or("");
         match tag {
-            "io" | "res" | "wire" | "can" | "new" | "mon" | "out" => continue,
+            "io" | "res" | "wire" | "can" | "new" | "mon" | "out" | "parsed" | "uriview" | "reqheaders"
+            | "statusline" => continue,
             _ => {}
         }
         if cur.is_empty() && pure::PURE_TAGS.contains(&tag) {
@@ -58,6 +61,7 @@ fn run_block(lines: &[String], out: &mut String) {
         return;
     }
     match fam.as_str() {
+        "hs-server" | "hs-client" => hs::run_case(lines, out),
         _ => endpoint::run_case(lines, out),
     }
 }
@@ -95,6 +99,14 @@ fn main() {
                 for i in 0..count {
                     let mut r = rng.fork();
                     let c = gen::gen_endpoint(&mut r, prof, i);
+                    let mut out = String::new();
+                    run_block(&c, &mut out);
+                    so.write_all(out.as_bytes()).unwrap();
+                }
+            } else if fam == "hs:server" || fam == "hs:client" {
+                for i in 0..count {
+                    let mut r = rng.fork();
+                    let c = if fam == "hs:server" { genhs::gen_server(&mut r, i) } else { genhs::gen_client(&mut r, i) };
                     let mut out = String::new();
                     run_block(&c, &mut out);
                     so.write_all(out.as_bytes()).unwrap();
